@@ -45,3 +45,22 @@ for base in ("DemeLevelCandidatesFilter", "TreeLevelCandidatesFilter"):
        requires=FILTER_PRE, modifies=FILTER_FRAME, ensures=ONLY_REMOVES,
        note="user-defined filters are assumed to satisfy it; every shipped filter under contract is proved to")
 
+
+# ---- candidate generators ---------------------------------------------------------------------------------------------------
+from pyvc_contracts_d10_tree_structure import struct  # noqa: E402
+from pyvc_contracts_d20_tree_run import SEEDS_POST  # noqa: E402
+
+GEN_POST = [
+    cl("new_dictionary", "fresh(result) and CandsOk(result)"),
+    cl("only_active_non_leaf_demes", "forall(lambda k: imp(0 <= k < len(result.keys()), InTree(tree, result.keys()[k]) "
+       "and result.keys()[k]._active and result.keys()[k]._level + 1 < len(tree._levels)), pat=result.keys()[k])", tags="C10 C07"),
+    cl("new_candidate_lists", "forall(lambda k: imp(0 <= k < len(result.keys()), fresh(result[result.keys()[k]]) "
+       "and fresh(result[result.keys()[k]].individuals) and kind(result[result.keys()[k]].individuals) == 0), pat=result.keys()[k])"),
+    cl("from_the_current_population", "forall(lambda k: imp(0 <= k < len(result.keys()), "
+       "forall(lambda j: imp(0 <= j < len(result[result.keys()[k]].individuals), "
+       "Member(result[result.keys()[k]].individuals[j], cur_pop(result.keys()[k]))))), pat=result.keys()[k])", tags="C10 C07"),
+]
+fn(SG + "SproutCandidatesGenerator.__call__", abstract=True, params={"tree": "ref:DemeTree"},
+   returns="dict[ref:AbstractDeme,ref:DemeCandidates]",
+   requires=[cl("tree", "tree != None and S_levels(tree) and S_deme(tree)")], modifies=[],
+   ensures=GEN_POST, note="user-defined generators are assumed to satisfy it; every shipped generator under contract is proved to")
